@@ -843,3 +843,24 @@ mod tests {
         );
     }
 }
+
+/// Verification hook (add-only): the text of the fixed statements, by name
+#[cfg(hyperledger_aries_askar_verif)]
+#[doc(hidden)]
+pub fn verif_statement(name: &str) -> Option<&'static str> {
+    Some(match name {
+        "config_fetch" => CONFIG_FETCH_QUERY,
+        "config_update" => CONFIG_UPDATE_QUERY,
+        "count" => COUNT_QUERY,
+        "delete" => DELETE_QUERY,
+        "fetch" => FETCH_QUERY,
+        "fetch_update" => FETCH_QUERY_UPDATE,
+        "insert" => INSERT_QUERY,
+        "update" => UPDATE_QUERY,
+        "scan" => SCAN_QUERY,
+        "delete_all" => DELETE_ALL_QUERY,
+        "tag_insert" => TAG_INSERT_QUERY,
+        "tag_delete" => TAG_DELETE_QUERY,
+        _ => return None,
+    })
+}
